@@ -74,6 +74,12 @@ Sensitivity (quick tier, seed 1, one textual mutation at a time on a scratch cop
     run_sync is left with its future still PENDING: new function kind `stops_loop` (calls IOLoop.stop() while unfinished);
     the stale timeout then cancels the old future during the next run_sync and stops it -> caught
     (C38.run_sync.loop_not_reusable).
+  * `_run_callback`: the silent `except asyncio.CancelledError` widened to `(CancelledError, TimeoutError)` -> caught at
+    seeds 1-3 (C38.callback_exception_not_logged, exception_type TimeoutError) since the exception TYPE raised by
+    callbacks / carried by returned futures and coroutines is a generated dimension (RuntimeError, ValueError, KeyError,
+    OSError, TimeoutError under its asyncio / gen / tornado.util names, InvalidStateError, LookupError, StopIteration,
+    a user subclass; CancelledError = the documented silent case, logging not asserted).  Earlier version: missed (one
+    user-defined exception class only).
   * add_timeout(timedelta) forwards `*args` but drops `**kwargs`                 -> caught at seeds 1-3
     (C38.arguments_not_forwarded) since every scheduling call (add_callback, spawn_callback, add_timeout absolute /
     timedelta, call_later, call_at, cross-thread add_callback, run_in_executor positional) is made with generated
@@ -122,6 +128,23 @@ class CbError(Exception):
 
 
 RAISING = ("raise", "failfut", "failcoro", "latefailcoro")
+
+
+def _exc_pool():
+    import tornado.util
+    from tornado import gen
+
+    return [
+        ("CbError", CbError), ("RuntimeError", RuntimeError), ("ValueError", ValueError), ("KeyError", KeyError),
+        ("OSError", OSError), ("TimeoutError", TimeoutError), ("asyncio.TimeoutError", asyncio.TimeoutError),
+        ("gen.TimeoutError", gen.TimeoutError), ("tornado.util.TimeoutError", tornado.util.TimeoutError),
+        ("asyncio.InvalidStateError", asyncio.InvalidStateError), ("LookupError", LookupError),
+        ("StopIteration", StopIteration),          # only raised directly by a callback (cannot be a future's exception)
+        ("CancelledError", asyncio.CancelledError),  # the documented silent case ("CancelledErrors are no longer logged")
+    ]
+
+
+EXC_POOL = _exc_pool()
 
 
 class World:
@@ -204,23 +227,41 @@ class World:
 
         return fn
 
+    def make_exc(self, item):
+        """The exception TYPE is a generated dimension: whatever Exception a callback raises, or a future / coroutine it
+        returns fails with, must be logged and must not stop the loop (CancelledError: documented as silent)."""
+        name, cls = EXC_POOL[(item["id"] * 5 + self.salt) % len(EXC_POOL)]
+        if cls is StopIteration and item["beh"][0] != "raise":
+            name, cls = "CbError", CbError
+        item["exc_kind"] = name
+        self.labels.add("exc." + name)
+        return cls("item%d" % item["id"])
+
     def behave(self, item):
         beh = item["beh"]
         k = beh[0]
         if k == "raise":
-            raise CbError("item%d" % item["id"])
+            raise self.make_exc(item)
         if k == "failfut":
             f = Future()
-            f.set_exception(CbError("item%d" % item["id"]))
+            exc = self.make_exc(item)
+            if isinstance(exc, asyncio.CancelledError):
+                f.cancel()
+            else:
+                f.set_exception(exc)
             return f
         if k == "failcoro":
+            exc1 = self.make_exc(item)
+
             async def c():
-                raise CbError("item%d" % item["id"])
+                raise exc1
             return c()
         if k == "latefailcoro":
+            exc2 = self.make_exc(item)
+
             async def c2():
                 await asyncio.sleep(0)
-                raise CbError("item%d" % item["id"])
+                raise exc2
             return c2()
         if k == "okcoro":
             async def c3():
@@ -387,15 +428,18 @@ async def _scn_main(case, logs):
     logged = set()
     for r in app_err:
         e = r[4]
-        if isinstance(e, CbError) and e.args and str(e.args[0]).startswith("item"):
-            logged.add(int(e.args[0][4:]))
+        if isinstance(e, BaseException) and e.args and str(e.args[0]).startswith("item"):
+            logged.add(int(str(e.args[0])[4:]))
         else:
             w.fail("C38.unexpected_error_logged", {"record": (r[2][:200], repr(e))})
     for i in w.items:
         if i["beh"][0] in RAISING and i["runs"] >= 1:
             w.labels.add("raise_then_continue")
-            if i["id"] not in logged:
-                w.fail("C38.callback_exception_not_logged", {"item": i["id"], "beh": i["beh"]})
+            if i.get("exc_kind") == "CancelledError":
+                w.labels.add("cancelled_error_silent_case")  # logging not asserted; the loop just has to go on
+            elif i["id"] not in logged:
+                w.fail("C38.callback_exception_not_logged", {"item": i["id"], "beh": i["beh"], "exception_type": i.get("exc_kind")},
+                       )
         elif i["id"] in logged:
             w.fail("C38.unexpected_error_logged", {"item": i["id"], "beh": i["beh"]})
     esc = [r for r in logs.records if r[0] == "asyncio" and r[1] >= 40]
